@@ -14,6 +14,7 @@ import (
 	"math/rand/v2"
 	"net/http"
 	"os"
+	"path"
 	"path/filepath"
 	"reflect"
 	"sort"
@@ -249,8 +250,10 @@ func TestC10(t *testing.T) {
 	stop()
 	if r.Only < 0 {
 		realClientOddReplies(t, r, tmp)
+		bigFileCache(t, r, tmp)
+		uncleanStructPrefixes(t, r)
 	}
-	r.Require("real_client_odd_replies", "returned_nil", "returned_error_ctx", "complete_cache_no_request", "retry_rounds", "fileclient_missing", "fileclient_entries_without_value", "misconfig", "cache_ignored_as_invalid")
+	r.Require("big_file_cache_restarts", "struct_prefix_spellings", "real_client_odd_replies", "returned_nil", "returned_error_ctx", "complete_cache_no_request", "retry_rounds", "fileclient_missing", "fileclient_entries_without_value", "misconfig", "cache_ignored_as_invalid")
 	r.Rule("seeded cases = declared names (1-6 of a 6-name pool, with duplicates, via Secrets and/or a run-time generated tagged struct) x cache content (none, empty, partial, complete, stale, invalid JSON, null entry, entry without secret, empty key, wrong JSON type, one entry with a wrongly typed field, read error) x per-secret service script (ok, fail k times, fail k times with the client's own timeout error, fail until T, hang until T, slow, never; failures with and without the context error wrapped) x expiry age {0, 1h, 30d} with old/zero/future cache stamps x context (background, deadline, cancel at T) x client kind (scripted / real FileClient). Distinct = (cache kind, set of script modes, context kind, client kind, outcome)")
 }
 
@@ -707,5 +710,90 @@ func realClientOddReplies(t *testing.T, r *evid.Run, tmp string) {
 			}
 			st.Close()
 		}
+	}
+}
+
+// bigFileCache: "with a complete cache it returns without contacting the service" - also when the complete
+// cache is a real file of several megabytes (large secrets, or many).
+func bigFileCache(t *testing.T, r *evid.Run, tmp string) {
+	rng := r.Rand(101010)
+	for si, sh := range []struct{ n, size int }{{2, 100}, {3, 500 << 10}, {300, 5000}, {1, 3 << 20}} {
+		path := filepath.Join(tmp, fmt.Sprintf("bigcache%d", si), "cache.json")
+		svc := fakesvc.New()
+		var names []string
+		want := map[string][]byte{}
+		for i := 0; i < sh.n; i++ {
+			n := fmt.Sprintf("big/%d", i)
+			v := make([]byte, sh.size)
+			for k := range v {
+				v[k] = byte(rng.IntN(256))
+			}
+			names = append(names, n)
+			want[n] = v
+			svc.Set(n, 1, v)
+		}
+		fc, err := setec.NewFileCache(path)
+		if err != nil {
+			t.Fatal(err)
+		}
+		st, err := setec.NewStore(context.Background(), setec.StoreConfig{Client: svc, Secrets: names, Cache: fc, PollInterval: -1, Logf: func(string, ...any) {}})
+		if err != nil {
+			t.Fatal(err)
+		}
+		st.Close()
+		before := svc.NumRequests()
+		fc2, _ := setec.NewFileCache(path)
+		ctx, cancel := context.WithTimeout(context.Background(), 5*time.Second)
+		st2, err := setec.NewStore(ctx, setec.StoreConfig{Client: svc, Secrets: names, Cache: fc2, PollInterval: -1, Logf: func(string, ...any) {}})
+		cancel()
+		r.Eval(1)
+		r.Count("big_file_cache_restarts", 1)
+		r.Distinct(fmt.Sprintf("file cache %d x %d bytes", sh.n, sh.size))
+		if err != nil {
+			r.Violation("error-while-context-alive", -1, fmt.Sprintf("restart on a complete file cache (%d secrets of %d bytes): %v", sh.n, sh.size, err), nil)
+			continue
+		}
+		if n := svc.NumRequests() - before; n != 0 {
+			r.Violation("complete-cache-but-requests", -1, fmt.Sprintf("restart on a complete file cache (%d secrets of %d bytes) sent %d request(s) to the service", sh.n, sh.size, n), nil)
+		}
+		for _, n := range names {
+			if !bytes.Equal(st2.Secret(n).Get(), want[n]) {
+				r.Violation("returned-before-all-fetched", -1, fmt.Sprintf("restart on a complete file cache: %q yields other bytes", n), nil)
+				break
+			}
+		}
+		st2.Close()
+	}
+}
+
+type prefixed struct {
+	Key   string `setec:"api-key"`
+	Other []byte `setec:"sub/other"`
+}
+
+// uncleanStructPrefixes: struct-tagged secrets with prefixes as people write them ("dev/", "dev//x", "./dev"):
+// whatever name the store derives, it derives the same one when it declares, fetches and fills in, so
+// construction succeeds with the service holding the (cleaned) names, and fails cleanly - never hangs - otherwise.
+func uncleanStructPrefixes(t *testing.T, r *evid.Run) {
+	for _, prefix := range []string{"dev", "dev/", "dev//", "/dev", "./dev", "dev/./x", "dev/x/..", "a//b", ""} {
+		clean := path.Join(prefix, "api-key")
+		svc := fakesvc.New()
+		svc.Set(clean, 1, []byte("key-value"))
+		svc.Set(path.Join(prefix, "sub/other"), 1, []byte("other-value"))
+		var v prefixed
+		ctx, cancel := context.WithTimeout(context.Background(), 3*time.Second)
+		st, err := setec.NewStore(ctx, setec.StoreConfig{Client: svc, Structs: []setec.Struct{{Value: &v, Prefix: prefix}}, PollInterval: -1, Logf: func(string, ...any) {}})
+		cancel()
+		r.Eval(1)
+		r.Count("struct_prefix_spellings", 1)
+		r.Distinct(fmt.Sprintf("struct prefix %q", prefix))
+		if err != nil {
+			r.Violation("error-while-context-alive", -1, fmt.Sprintf("struct with prefix %q: the service holds %q and %q, but NewStore failed: %v", prefix, clean, path.Join(prefix, "sub/other"), err), nil)
+			continue
+		}
+		if v.Key != "key-value" || string(v.Other) != "other-value" {
+			r.Violation("returned-before-all-fetched", -1, fmt.Sprintf("struct with prefix %q: fields hold %q / %q", prefix, v.Key, v.Other), nil)
+		}
+		st.Close()
 	}
 }
